@@ -29,6 +29,7 @@ EXPLANATION = (
     "-1 - type, month bits in {0, 0x0fff}), the power field is -|p| masked to 16 bits for charge and +|p| for discharge, and the 745 "
     "scaling of encode_power / decode_power is an inverse pair inside is_in_range; (R5) export limit and DoD setters write the id the "
     "getter reads, DoD through the same involution 100 - x on both sides. Device state after the write sequence is not decided."
+    " (R7) read_setting asks the inverter on every path that returns a value derived from the object's state (no remembered answers), so a getter after a setter sees the new value."
 )
 
 
